@@ -195,6 +195,21 @@ def run_writer(ctx, case):
     Cur.ctx, Cur.case, Cur.exc = ctx, case, None
     fmt, params = case['fmt'], dict(case['params'])
     spec = case['spec']
+    unispace = any(c in (t.get('w') or '') for t in gen.tokens_of(spec['root'])
+                   for c in '\u00a0\u3000\u2009')
+    if unispace and fmt == 'export':
+        # the export format cannot carry these words (its reader separates
+        # fields on any Unicode white space): not judged
+        return
+    if unispace:
+        ctx.stratum('word with non-ASCII space character')
+    if fmt == 'export' and sum(1 for n in gen.walk(spec['root'])
+                               if 'c' in n) > 499:
+        # the export format numbers constituents 500..999: a sentence with
+        # more than 499 of them cannot be written in it
+        ctx.stratum('more constituents than the export format can number '
+                    '(unjudged)')
+        return
     m = model.from_spec(spec['root'])
     if case.get('style') == 'brackets' and m.children:
         m.edge = None
@@ -375,8 +390,11 @@ def word_pool(rng):
         return gen.WORDS_ASCII + gen.WORDS_NONASCII + gen.WORDS_BEYOND_LATIN1
     if r < 0.75:
         return gen.WORDS_ASCII + gen.WORDS_PAREN
-    if r < 0.9:
+    if r < 0.82:
         return gen.WORDS_ASCII + gen.WORDS_TABSTOP
+    if r < 0.9:
+        # white space for Unicode, ordinary characters for the formats
+        return gen.WORDS_ASCII + gen.WORDS_UNISPACE
     return gen.WORDS_ASCII + gen.WORDS_XML + gen.WORDS_NONASCII + \
         gen.WORDS_PAREN + gen.WORDS_TABSTOP + gen.PUNCT + gen.WORDS_HASH
 
@@ -384,6 +402,9 @@ def word_pool(rng):
 def make_tree(rng, small=False):
     pools = gen.Pools(words=word_pool(rng),
                       pos=gen.POS + ['$(', '$,', '$.'],
+                      cats=gen.CATS + (['R-SIMPX', 'NP-SBJ', 'PP-LOC-1', 'S=2',
+                                        'A#B', 'X+Y']
+                                       if rng.random() < 0.3 else []),
                       morphs=gen.MORPHS + ['abcdefgh', 'abcdefghijklmnop', 'x' * 9],
                       none_fields=rng.choice([0, 0, 0.3, 1.0]))
     n = rng.randint(1, 5) if small else \
